@@ -414,7 +414,11 @@ def cpSettled (s : Sys) (th : Tid) : Bool :=
   | none => true
   | some tb =>
     if t.cpGot then
-      (match t.cpPlan with | some _ => t.committed | none => true)
+      -- a planned compaction commits, unless the table was dropped meanwhile (then
+      -- `commit_changes` refuses its changeset and the pass moves on)
+      (match t.cpPlan with
+       | some _ => t.committed || (t.begun && !s.tables.contains tb)
+       | none => true)
     else (heldBy s tb).isSome
 
 /-- `commit_inner` (since the DELETE fix): a row handler of a row-set that is not in the update
@@ -606,7 +610,10 @@ def stepCommitBegin (s : Sys) (th : Tid) : Option Sys :=
 
 def stepCommitA (s : Sys) (th : Tid) : Option Sys :=
     let t := getTh s th
-    if !t.begun || t.committed then none
+    -- `commit_changes` refuses RowSets / DVs for a table that DROP TABLE has marked as dropped
+    -- (the table leaves `tables` in the same segment in which it is marked)
+    if !t.begun || t.committed
+        || (addKeys t.ops ++ dvKeys t.ops).any (fun key => !s.tables.contains key.1) then none
     else (match kCommitA s.k th t.ops with
           | some k' => some (withK s k')
           | none => none)
